@@ -182,6 +182,26 @@ def check(ctx):
         derived = {s.target.id for s in c.node.body if isinstance(s, ast.AnnAssign) and s.value is not None
                    and "init=False" in norm(s.value)} if init is None else set()
         missing = [p for p in params if p not in covered and p not in derived]
+        # each constructor keyword must be fed from the key the writer stored that attribute under
+        wmap = {}
+        for n in ast.walk(w.node):
+            if isinstance(n, ast.Assign) and isinstance(n.targets[0], ast.Subscript) and isinstance(n.targets[0].slice, ast.Constant) \
+                    and isinstance(n.value, ast.Attribute) and isinstance(n.value.value, ast.Name) and n.value.value.id == "self":
+                wmap[n.targets[0].slice.value] = n.value.attr
+        crossed = []
+        for n in ast.walk(r.node):
+            if isinstance(n, ast.Call) and getattr(n.func, "id", None) in (cls, "cls"):
+                for k in n.keywords:
+                    keys = {x.slice.value for x in ast.walk(k.value) if isinstance(x, ast.Subscript) and isinstance(x.slice, ast.Constant)
+                            and isinstance(x.slice.value, str)}
+                    keys |= {x.args[0].value for x in ast.walk(k.value) if isinstance(x, ast.Call) and getattr(x.func, "id", "") == "get"
+                             and x.args and isinstance(x.args[0], ast.Constant)}
+                    for key in keys:
+                        if key in wmap and wmap[key] in params and wmap[key] != k.arg:
+                            crossed.append(f"{k.arg} <- key {key!r} (written from self.{wmap[key]})")
+        ctx.ob("R14.1", f"{cls}: each constructor argument is read from the key its attribute was written under", not crossed,
+               detail={"writer_map": wmap, "crossed": crossed}, where=r.fq, construct=f"{cls} key-to-parameter map", loc=loc(r, r.node),
+               message=f"{cls}.{rname} crosses fields: {crossed}", consequence="a field reloads with the value of another field")
         ctx.ob("R14.1", f"{cls}: reader passes every constructor parameter", not missing,
                detail={"params": params, "passed": sorted(covered), "missing": missing}, where=r.fq,
                construct=f"{cls}(...) in {rname}", loc=loc(r, r.node),
@@ -207,10 +227,16 @@ def options_none(ctx):
     drops = any(isinstance(n, ast.If) and "is not None" in norm(n.test) and any(
         isinstance(x, ast.Subscript) and isinstance(x.value, ast.Attribute) and x.value.attr == "attrs"
         for x in ast.walk(n)) for n in own_nodes(sw.node))
-    restores_none = any(isinstance(n, ast.Call) and isinstance(n.func, ast.Attribute) and n.func.attr in ("setdefault",)
-                        for n in ast.walk(sr.node)) or "None" in "".join(
-        norm(n) for n in own_nodes(sr.node) if isinstance(n, (ast.Assign, ast.For, ast.If)) and "options" in norm(n)
-        and "fields" in norm(n))
+    restores_none = False
+    for n in ast.walk(sr.node):
+        if isinstance(n, ast.For) and "fields(SolverOptions)" in norm(n.iter):
+            for x in ast.walk(n):
+                if isinstance(x, ast.Assign) and isinstance(x.targets[0], ast.Subscript) and isinstance(x.value, ast.Constant) \
+                        and x.value.value is None and "kwargs" in norm(x.targets[0].value):
+                    restores_none = True
+                if isinstance(x, ast.Call) and isinstance(x.func, ast.Attribute) and x.func.attr == "setdefault" and len(x.args) == 2 \
+                        and isinstance(x.args[1], ast.Constant) and x.args[1].value is None:
+                    restores_none = True
     bad = []
     for s in opt.node.body:
         if isinstance(s, ast.AnnAssign) and isinstance(s.target, ast.Name):
